@@ -26,6 +26,7 @@ func TestVerif(t *testing.T) {
 	defer out.Close()
 	r := vfh.NewRand(vfh.Seed())
 	verifC19(t, r, out)
+	verifC19Process(t, r, out)
 	verifC19Concurrent(t, r, out)
 }
 
